@@ -300,3 +300,54 @@ func (p *Poly) isLinear() bool {
 	}
 	return true
 }
+
+// commonFactor returns the variables (with multiplicity) dividing every monomial, and the quotient.
+func (p *Poly) commonFactor() ([]int, *Poly) {
+	var common []int
+	first := true
+	for m := range p.t {
+		vs := monoVars(m)
+		if first {
+			common = vs
+			first = false
+			continue
+		}
+		// multiset intersection of sorted lists
+		var inter []int
+		i, j := 0, 0
+		for i < len(common) && j < len(vs) {
+			switch {
+			case common[i] == vs[j]:
+				inter = append(inter, common[i])
+				i++
+				j++
+			case common[i] < vs[j]:
+				i++
+			default:
+				j++
+			}
+		}
+		common = inter
+		if len(common) == 0 {
+			return nil, p
+		}
+	}
+	if len(common) == 0 {
+		return nil, p
+	}
+	rest := &Poly{t: make(map[string]*big.Int, len(p.t))}
+	for m, c := range p.t {
+		vs := monoVars(m)
+		var out []int
+		i := 0
+		for _, v := range vs {
+			if i < len(common) && common[i] == v {
+				i++
+				continue
+			}
+			out = append(out, v)
+		}
+		rest.t[monoOf(out)] = c
+	}
+	return common, rest
+}
